@@ -5,10 +5,11 @@ C13, single values on the remaining discrete encoder paths:
   * BC3 alpha of a single-alpha block (a BC4 UNORM block, `Enc13.bc4uSingle`) under ANY colour block;
   * BC2 explicit 4-bit alpha (`bc2_alpha`, src/encode/bc.rs lines 218–239, `n4::from_f32`).
 
-The block bytes predicted here for SNORM and BC2 alpha are NOT part of the differential tie (`predictSingle` in
-`Enc13.lean` covers BC7, BC4-type UNORM, 5:6:5 corners and the transparent block); they were compared once, by script,
-with the blocks `dds::encode` emitted for the quick-tier cases (see notes/C13.md), and the decoded values are judged by
-the oracle on every run.
+The definitions (`bc4sClosest`, `fromNorm`, `n4FromU8`, `bc2AlphaSingle`, …) live in the model file `Enc13.lean`; the block
+bytes they predict are part of the differential tie (`Enc13.predictBlock`: the BC2 alpha bytes of every block without alpha
+dithering, the SNORM `closest` block of every constant channel that passes the guard), and the decoded values are judged
+by the oracle on every run.  The f32 steps behind the closed forms are proved in `Proofs/Enc13F32.lean`; the per-pixel
+BC2 rule for blocks of varying alpha is `Proofs/Enc13Tie.bc2_alpha_block`.
 -/
 import DdsModel.Enc13
 import DdsModel.Proofs.Enc13
@@ -17,16 +18,6 @@ namespace Dds.Enc13
 open Dds Dds.Bc
 
 /-! ### BC4 / BC5 SNORM -/
-
-/-- `s8::from_norm`: `(x + 1).wrapping_sub(128)` for `x ≤ 254` -/
-def fromNorm (x : Nat) : Nat := w8 (x + 1 + 128)
-
-/-- `single_color(value, snorm = true)` when `(closest.c0_f - value).abs() < BC4_EPSILON`:
-`closest.with_indexes(IndexList::new_all(0))` with `c0 = s8::from_norm(n)`, `c1 = s8::from_norm(0)`, where
-`n = closest_s8_norm = (254.0 * value + 0.5) as u8` (f32, NOT modelled: `n` is the parameter).
-Whether the guard holds is decided in f32; in exact arithmetic an 8-bit UNORM input `v` (value `v/255`) passes it
-only for `v = 0` (`n = 0`) and `v = 255` (`n = 254`), see `snorm_guard_exact_arith`. -/
-def bc4sClosest (n : Nat) : List Nat := [fromNorm n, fromNorm 0, 0, 0, 0, 0, 0, 0]
 
 theorem fromNorm_norm : ∀ n, n ≤ 254 → s8norm (fromNorm n) = n ∧ fromNorm n < 256 := by
   intro n hn
@@ -126,18 +117,6 @@ theorem bc3_alpha_single (a : Nat) (ha : a ≤ 255) (blk : Nat → Nat) (h : ∀
     rw [toStraight_alpha]; unfold bc3Px; rw [setA_alpha]; exact e
 
 /-! ### BC2 explicit alpha -/
-
-/-- `n4::from_f32(a/255) = (x.min(1.0) * 15.0 + 0.5) as u8` for an 8-bit input alpha `a`: `15·a/255 + 1/2 = a/17 + 1/2`,
-floor = `(2a + 17) / 34`.  `2a + 17` is odd, so `a/17 + 1/2` is never within 1/34 of an integer: the f32 rounding of
-`n8::f32(a)`, of the product and of the sum (relative 2⁻²⁴ each) cannot change the floor.  (Same kind of margin
-argument as `opaque8`.) -/
-def n4FromU8 (a : Nat) : Nat := (2 * a + 17) / 34
-
-/-- `bc2_alpha` without alpha dithering on a block of constant alpha `a`: `indexes |= value << (i * 4)` for the 16
-pixels (`u64`), `to_le_bytes` -/
-def bc2AlphaSingle (a : Nat) : List Nat :=
-  let indexes := (List.range 16).foldl (fun ix i => (ix ||| (n4FromU8 a <<< (i * 4))) % U64) 0
-  (List.range 8).map fun k => indexes / 256 ^ k % 256
 
 /-- the explicit alpha of `bc2_u8_rgba` only looks at the first 8 bytes -/
 theorem bc2Alpha_congr (blk blk' : Nat → Nat) (h : ∀ i, i < 8 → blk i = blk' i) (p : Nat) (hp : p < 16) :
